@@ -120,7 +120,7 @@ def gen_plan(seed, tier):
              "unstage", "rm_cached", "commit", "switch", "switch", "touch",
              "rewrite_same", "dir_to_file", "to_link_same", "to_file_same",
              "reset_hard", "reset_hard", "add_all", "reset_mixed",
-             "dir_to_link"]),
+             "dir_to_link", "new_staged_dir_reset"]),
             "i": rng.randrange(100), "c": rng.randrange(10**6)})
     mode = rng.choice(["normal", "normal", "skewed", "racy", "racy"])
     gran = rng.choice([1, 1000, 4 * 10**6, 10**9, 2 * 10**9])
@@ -577,6 +577,57 @@ def run_plan(plan):
                     write_file(d, b"was a directory %d\n" % ed["c"])
                     m.wd[d] = ("file", b"was a directory %d\n" % ed["c"],
                                False)
+                elif op == "new_staged_dir_reset":
+                    # a new file is staged, then a populated directory takes
+                    # its place, then everything is reset: the staged entry
+                    # has to go although the directory stays
+                    p = b"fresh%d" % (ed["i"] % 4)
+                    if p in m.wd or p in m.index or any(
+                            q.startswith(p + b"/") for q in m.wd):
+                        continue
+                    write_file(p, b"fresh %d\n" % ed["c"])
+                    m.wd[p] = ("file", b"fresh %d\n" % ed["c"], False)
+                    try:
+                        r.get_worktree().stage([os.fsdecode(p)])
+                    except Exception as e:  # noqa: BLE001
+                        viol(f"stage-raised/{type(e).__name__}",
+                             f"{label} {p!r}: {e!r}")
+                        stopped[0] = True
+                        break
+                    m.index[p] = m.wd_entry(p)
+                    tick("after_index_write")
+                    os.unlink(fspath(p))
+                    del m.wd[p]
+                    write_file(p + b"/inner", b"inside %d\n" % ed["c"])
+                    m.wd[p + b"/inner"] = ("file", b"inside %d\n" % ed["c"],
+                                           False)
+                    stats["probe:staged_new_became_directory"] = 1
+                    try:
+                        porcelain.reset(r, "hard")
+                    except Exception as e:  # noqa: BLE001
+                        stats["reset_refused:" + type(e).__name__] = 1
+                        stopped[0] = True
+                        break
+                    stats["probe:reset_hard"] = 1
+                    if m.head != m.index and any(
+                            CONTENT.get(sha) is None
+                            for (_mo, sha) in m.head.values()):
+                        break
+                    # HEAD's paths come back, the staged-only entry goes,
+                    # untracked files (the directory's content) stay
+                    for q in list(m.wd):
+                        if q in m.index and q not in m.head:
+                            del m.wd[q]
+                    for q, (mode, sha) in m.head.items():
+                        if sha in CONTENT and not any(
+                                w_ != q and (w_.startswith(q + b"/") or
+                                             q.startswith(w_ + b"/"))
+                                for w_ in m.wd):
+                            m.wd[q] = ("link", CONTENT[sha]) \
+                                if mode == 0o120000 else \
+                                ("file", CONTENT[sha], mode == 0o100755)
+                    m.index = dict(m.head)
+                    tick("after_index_write")
                 elif op == "dir_to_link":
                     # a tracked directory is replaced by a symlink to a
                     # directory elsewhere that holds the same file names
